@@ -16,6 +16,7 @@
 #include <unistd.h>
 
 #include <atomic>
+#include <condition_variable>
 #include <functional>
 #include <memory>
 #include <tuple>
@@ -38,6 +39,7 @@ namespace vsched {
 struct LThread {
   bool finished = false;
   int waiting_for = -1; // logical id this thread is blocked on (join), -1 = none
+  const bool* blocked_while = nullptr; // blocked as long as *blocked_while is true (mutex held by another thread, condition not notified)
   ucontext_t ctx;
   char* stack = nullptr; // nullptr for the calling thread (id 0)
   const void* stack_bottom = nullptr; // for ASan
@@ -108,6 +110,7 @@ struct Scheduler {
     const LThread& t = *threads[id];
     if (t.finished) return false;
     if (t.waiting_for >= 0 && !threads[t.waiting_for]->finished) return false;
+    if (t.blocked_while && *t.blocked_while) return false;
     return true;
   }
 
@@ -238,6 +241,16 @@ struct Scheduler {
     int next = pick(self);
     if (next != self) switch_to(self, next);
     threads[self]->waiting_for = -1;
+  }
+
+  // block the running thread until *flag is false (a free scheduling decision, like a blocking join). When nothing else can run
+  // pick() reports the deadlock.
+  void block_while(const bool* flag) {
+    int self = running;
+    threads[self]->blocked_while = flag;
+    int next = pick(self);
+    if (next != self) switch_to(self, next);
+    threads[self]->blocked_while = nullptr;
   }
 
   // after the call under test returned: were all workers finished? then drain whatever is left so the
@@ -425,5 +438,128 @@ public:
 private:
   int id;
 };
+
+// std::mutex / std::condition_variable / std::this_thread for code under test that synchronises with them instead of (or next
+// to) atomics. Blocking is real blocking in the scheduler (a thread waiting for a held mutex or an un-notified condition is
+// not runnable; when nothing is runnable the run is reported as a deadlock). Waits with a timeout are modelled as
+// "hand the processor to somebody else once, then time out unless notified"; spurious wake-ups are not generated (they
+// are permitted, not required).
+class verif_shim_mutex {
+public:
+  verif_shim_mutex() = default;
+  verif_shim_mutex(const verif_shim_mutex&) = delete;
+  verif_shim_mutex& operator=(const verif_shim_mutex&) = delete;
+  void lock() {
+    Scheduler& s = S();
+    if (s.active) {
+      s.yield_point(s.running);
+      while (held) s.block_while(&held);
+    }
+    held = true;
+  }
+  bool try_lock() {
+    Scheduler& s = S();
+    if (s.active) s.yield_point(s.running);
+    if (held) return false;
+    held = true;
+    return true;
+  }
+  void unlock() { held = false; }
+
+private:
+  bool held = false;
+};
+
+class verif_shim_condition_variable {
+public:
+  verif_shim_condition_variable() = default;
+  verif_shim_condition_variable(const verif_shim_condition_variable&) = delete;
+  verif_shim_condition_variable& operator=(const verif_shim_condition_variable&) = delete;
+
+  void notify_one() {
+    for (auto* w : waiters)
+      if (w->waiting) {
+        w->waiting = false;
+        break;
+      }
+    point();
+  }
+  void notify_all() {
+    for (auto* w : waiters) w->waiting = false;
+    point();
+  }
+  template <typename Lock>
+  void wait(Lock& lk) {
+    Scheduler& s = S();
+    Waiter w;
+    waiters.push_back(&w);
+    lk.unlock();
+    if (s.active) {
+      while (w.waiting) s.block_while(&w.waiting);
+    }
+    remove(&w);
+    lk.lock();
+  }
+  template <typename Lock, typename Pred>
+  void wait(Lock& lk, Pred pred) {
+    while (!pred()) wait(lk);
+  }
+  template <typename Lock, typename D>
+  std::cv_status wait_for(Lock& lk, const D&) {
+    Scheduler& s = S();
+    Waiter w;
+    waiters.push_back(&w);
+    lk.unlock();
+    s.sleep_yield();
+    bool notified = !w.waiting;
+    remove(&w);
+    lk.lock();
+    return notified ? std::cv_status::no_timeout : std::cv_status::timeout;
+  }
+  template <typename Lock, typename D, typename Pred>
+  bool wait_for(Lock& lk, const D& d, Pred pred) {
+    while (!pred())
+      if (wait_for(lk, d) == std::cv_status::timeout) return pred();
+    return true;
+  }
+  template <typename Lock, typename TP>
+  std::cv_status wait_until(Lock& lk, const TP& tp) {
+    return wait_for(lk, tp);
+  }
+  template <typename Lock, typename TP, typename Pred>
+  bool wait_until(Lock& lk, const TP& tp, Pred pred) {
+    return wait_for(lk, tp, pred);
+  }
+
+private:
+  struct Waiter {
+    bool waiting = true;
+  };
+  void remove(Waiter* w) {
+    for (size_t i = 0; i < waiters.size(); i++)
+      if (waiters[i] == w) {
+        waiters.erase(waiters.begin() + i);
+        return;
+      }
+  }
+  static void point() {
+    Scheduler& s = S();
+    if (s.active) s.yield_point(s.running);
+  }
+  std::vector<Waiter*> waiters;
+};
+
+namespace verif_shim_this_thread {
+template <typename D>
+inline void sleep_for(const D&) {
+  S().sleep_yield();
+}
+template <typename TP>
+inline void sleep_until(const TP&) {
+  S().sleep_yield();
+}
+inline void yield() { S().sleep_yield(); }
+inline int get_id() { return S().running; }
+} // namespace verif_shim_this_thread
 
 } // namespace vsched
